@@ -233,7 +233,9 @@ KF_C16_UpdateOnlyInWal(o) ==
     /\ G' = [G EXCEPT ![o.t] = Effect(@, o)]
     /\ Effect(G[o.t], o) # G[o.t]
     /\ UNCHANGED <<kv, usage, quota, pc, call, res, pend, stale>>
-KF_C16_RecoverMissesUpdates(t, r) == AllIdle /\ r = kv[t] /\ r \notin Allowed(t) /\ RecoverEff(t, r)
+\* (storage = what was stored, with the creations / deletions in flight at the crash applied or not)
+StorageAfterCrash(t) == {ApplySet(kv[t], S) : S \in SUBSET {o \in pend : o.t = t /\ ~IsUpdate(o)}}
+KF_C16_RecoverMissesUpdates(t, r) == AllIdle /\ r \in StorageAfterCrash(t) /\ r \notin Allowed(t) /\ RecoverEff(t, r)
 
 \* nothing is running (observation point)
 Quiescent == AllIdle /\ UNCHANGED pvars
